@@ -24,6 +24,7 @@ type Rq struct {
 	After   bool   `json:"after,omitempty"`
 	Val     string `json:"val,omitempty"` // string error int ptr abort
 	Sub     bool   `json:"sub,omitempty"` // the handler issues a nested request to the same subject before answering
+	Srv     bool   `json:"srv,omitempty"` // the request context is the one net/http's server provides (ServerContextKey set)
 }
 
 type Case struct {
@@ -65,6 +66,7 @@ func gen(t *rapid.T) Case {
 			q.Val = rapid.SampledFrom([]string{"string", "error", "int", "ptr", "abort"}).Draw(t, "val")
 		}
 		q.Sub = rapid.IntRange(0, 3).Draw(t, "sub") == 0
+		q.Srv = rapid.IntRange(0, 2).Draw(t, "underServer") == 0
 		c.Reqs = append(c.Reqs, q)
 	}
 	return c
@@ -180,7 +182,7 @@ func (w *world) serve(c Case, q Rq, val any) *rig.Outcome {
 	if c.Subject != "router" && path != "/zz/unmatched" {
 		path = "/v1" + path
 	}
-	req := rig.Req{Method: q.Method, Path: path, PanicAt: q.PanicAt, PanicAfter: q.After, PanicWith: val}
+	req := rig.Req{Method: q.Method, Path: path, PanicAt: q.PanicAt, PanicAfter: q.After, PanicWith: val, UnderServer: q.Srv}
 	if q.Sub {
 		sub := "/b/9sub"
 		if c.Subject != "router" {
@@ -213,7 +215,7 @@ func check(c Case, st *rig.Stats) error {
 	// process-wide, so a twin that ran interleaved with the subject would suffer the same damage
 	normals := make([]*rig.Outcome, len(c.Reqs))
 	for i, q := range c.Reqs {
-		normals[i] = base.serve(c, Rq{Method: q.Method, Path: q.Path, Sub: q.Sub}, nil)
+		normals[i] = base.serve(c, Rq{Method: q.Method, Path: q.Path, Sub: q.Sub, Srv: q.Srv}, nil)
 	}
 	for i, q := range c.Reqs {
 		var val any
